@@ -96,12 +96,22 @@ pub fn parse_legacy(text: &str) -> P {
 pub fn parse_rowan(text: &str) -> P {
 	match guarded(|| {
 		let errs = jrsonnet_rowan_parser::parse(text).1;
-		errs.first().map(|e| (format!("{}", e.error), u32::from(e.range.start()) as usize, errs.len()))
+		// the error that sits on a unary `+` (a known gap of this parser) is reported in preference to its
+		// follow-up errors, otherwise the first one
+		let all: Vec<(String, usize)> = errs.iter().map(|e| (format!("{}", e.error), u32::from(e.range.start()) as usize)).collect();
+		let pick = all.iter().find(|(m, o)| m.starts_with("missing expression") && kind_at(text, *o) == "PLUS").or_else(|| all.first()).cloned();
+		pick.map(|(m, o)| (m, o, all.len()))
 	}) {
 		Ok(None) => P::Ok(String::new()),
 		Ok(Some((m, o, n))) => P::Rej(format!("{m} (+{} more)", n - 1), o),
 		Err(p) => P::Panic(p),
 	}
+}
+
+/// the default parser's known defect: a unary operator whose operand is a multiplicative expression
+fn unary_over_mul(tree: &str) -> bool {
+	let toks: Vec<&str> = tree.split(' ').collect();
+	toks.windows(4).any(|w| w[0].trim_start_matches('(') == "un" && w[0].starts_with('(') && w[2].trim_start_matches('(') == "bin" && ["*", "/", "%"].contains(&w[3]))
 }
 
 fn op_level(op: &str) -> &'static str {
@@ -227,13 +237,14 @@ pub fn compare(rep: &mut Report, text: &str, expect: Option<&str>, cost: u32, _c
 	match (&d, &l) {
 		(P::Ok(a), P::Ok(b)) => {
 			if a != b {
-				viol(format!("tree-mismatch default-vs-legacy {}", tree_diff_key(a, b)), format!("default: {a}\nlegacy:  {b}"));
+				let key = if unary_over_mul(a) && !unary_over_mul(b) { "unary operator applied to a whole * / % expression by the default parser".to_owned() } else { tree_diff_key(a, b) };
+				viol(format!("tree-mismatch default-vs-legacy {key}"), format!("default: {a}\nlegacy:  {b}"));
 			}
 		}
 		(P::Ok(_), P::Rej(m, o)) => {
 			// the PEG parser reports character offsets
 			let boff = text.char_indices().nth(*o).map_or(text.len(), |x| x.0);
-			viol(format!("accept-mismatch default=accept legacy=reject after {} at {}", prev_kind(text, boff), kind_at(text, boff)), format!("legacy parser at {o}: expected {m}"))
+			viol(format!("accept-mismatch default=accept legacy=reject at {}", kind_at(text, boff)), format!("legacy parser at {o}: expected {m}"))
 		}
 		(P::Rej(m, o), P::Ok(_)) => viol(format!("accept-mismatch default=reject legacy=accept: {} at {}", norm_msg(m), kind_at(text, *o)), format!("default parser at {o}: {m}")),
 		_ => {}
@@ -254,7 +265,10 @@ pub fn compare(rep: &mut Report, text: &str, expect: Option<&str>, cost: u32, _c
 	if let Some(exp) = expect {
 		for (name, p) in [("default", &d), ("legacy", &l)] {
 			match p {
-				P::Ok(c) if c != exp => viol(format!("tree-differs-from-grammar {name} {}", tree_diff_key(exp, c)), format!("expected: {exp}\n{name}: {c}")),
+				P::Ok(c) if c != exp => {
+					let key = if unary_over_mul(c) && !unary_over_mul(exp) { "unary operator applied to a whole * / % expression".to_owned() } else { tree_diff_key(exp, c) };
+					viol(format!("tree-differs-from-grammar {name} {key}"), format!("expected: {exp}\n{name}: {c}"))
+				}
 				P::Rej(m, o) => {
 					let boff = if name == "legacy" { text.char_indices().nth(*o).map_or(text.len(), |x| x.0) } else { *o };
 					viol(format!("valid-program-rejected {name}: {} after {} at {}", if name == "legacy" { String::new() } else { norm_msg(m) }, prev_kind(text, boff), kind_at(text, boff)), format!("{name} parser rejected a grammatical program at {o}: {m}"))
